@@ -566,6 +566,9 @@ func applyDirs(hc *harnessCfg, dirs map[string]string, tier string) {
 	if n, ok := geti("sched"); ok {
 		hc.maxSchedPoints = n
 	}
+	if n, ok := geti("preempt"); ok {
+		hc.maxPreemptions = n
+	}
 	if n, ok := geti("indexfork"); ok {
 		hc.forkIndexBelow = n
 	}
